@@ -13,9 +13,15 @@ def spec(**kw):
     d.update(kw)
     order = ["kind", "cap", "w", "ttl", "tti", "hash", "tick", "beyond", "autosync", "keys", "Q", "A", "D", "alpha", "lru", "pure", "max"]
     s = ",".join("%s=%s" % (k, d[k]) for k in order)
+    if d.get("unit"):
+        s += ",unit=%s" % d["unit"]
     if d.get("pre"):
         s += ",pre=%s" % d["pre"]
     return s
+
+
+# a time unit that is neither a whole number of milliseconds nor of microseconds
+ODD_UNIT = 1000003
 
 
 def seqjob(jid, **kw):
@@ -119,6 +125,31 @@ def expiry_space(tier, prop):
                     for rg in regimes():
                         kw = dict(base, D=9 if thorough else 7, Q=3 if thorough else 2, A=4 if thorough else 3, **rg)
                         out.append(seqjob(name(prop.lower(), kw), **kw))
+    # the same spaces with an odd time unit (1 000 003 ns instead of a millisecond): no
+    # reading, deadline or duration is a whole number of milliseconds or microseconds, and
+    # the clock still lands exactly on every deadline (round 17)
+    for kind in ("U", "S"):
+        for ex in exps[1:]:
+            base = dict(kind=kind, cap="none", alpha="expiry", keys=2, unit=ODD_UNIT, **ex)
+            if kind == "U":
+                kw = dict(base, D=9 if thorough else 7, A=4 if thorough else 3)
+                out.append(seqjob(name(prop.lower(), kw), **kw))
+            else:
+                for rg in regimes():
+                    kw = dict(base, D=8 if thorough else 6, Q=2, A=4 if thorough else 3, **rg)
+                    out.append(seqjob(name(prop.lower(), kw), **kw))
+    # ... and with a tick of ONE NANOSECOND (durations of 2 and 3 ns): whatever is rounded
+    # to micro- or milliseconds anywhere on the way decides differently
+    for kind in ("U", "S"):
+        for ex in exps[1:4]:
+            base = dict(kind=kind, cap="none", alpha="expiry", keys=2, unit=1, tick=1, **ex)
+            if kind == "U":
+                kw = dict(base, D=9 if thorough else 7, A=4 if thorough else 3)
+                out.append(seqjob(name(prop.lower(), kw), **kw))
+            else:
+                for b in (1, 0):
+                    kw = dict(base, D=8 if thorough else 6, Q=2, A=4 if thorough else 3, beyond=b)
+                    out.append(seqjob(name(prop.lower(), kw), **kw))
     return out
 
 
@@ -449,6 +480,9 @@ def jobs_for(prop, tier):
         j = j + longruns([("churn", 100, 250), ("churn", 20, 250), ("fill", 300, 250)])
     elif prop in ("C12", "C13"):
         j = j + longruns([("churn", 100, 250), ("churn", 20, 250)], lru=1)
+    # key / value types other than the search engines' own, RandomState, build() (E1d)
+    if prop in ("C01", "C03", "C05", "C07", "C08", "C10", "C16"):
+        j = j + [{"id": "scalex-types", "argv": ["scalex", "types"]}]
     # explored schedules of the real sync cache (E2); the postlude of every schedule
     # checks structure, counters, drops, final state and the sequential refill
     b = 3 if thorough else 2
